@@ -443,4 +443,19 @@ theorem C15_genloadv1_text_is_literal (printable : Char → Bool) (f : VField) (
   refine ⟨rfl, rfl, rfl, rfl, ⟨[], ?_⟩, C15_repr_roundtrip printable k⟩
   simp [tagStmts, hg, hp, DW.GenLoad.t]
 
+open DW.GenLoadV1 DW.GenDump in
+/-- non-vacuity of `C15_genloadv1_premises_sound`: the test passes on the class of the examples above (whose second field is called
+like a template variable here), and fails when a value expression binds one of the skeleton's outside names -/
+example :
+    let mk (binds : List S) : VIn :=
+      { catchAll := .required "rest".toList 1,
+        fields := [{ name := "cls".toList, lookup := .anyOf [.lit "A".toList, .lit "it's".toList], expr := "int(v1)".toList,
+                     exprReads := ["v1".toList, "int".toList], exprBinds := binds },
+                   { name := "v1".toList, hasDefault := true, lookup := .pathAssign [.str "x".toList, .int 0],
+                     expr := "v1".toList, exprReads := ["v1".toList] }] }
+    let outer : List S := ["cls", "fields", "MISSING", "re_raise", "raise_missing_fields", "locals", "Exception", "aliases", "len",
+                            "safe_get", "int"].map String.toList
+    premisesB (mk []) outer = true ∧ premisesB (mk ["tp".toList]) outer = true ∧ premisesB (mk ["len".toList]) outer = false := by
+  decide +kernel
+
 end DW.Props.C15
